@@ -83,11 +83,14 @@ structure EncView (env : Env) (be : Backend) (i : Inst) (data : Bytes) (bs : Nat
 /-- `encode_spec`, exposing the backend call. -/
 theorem encode_view (env : Env) (be : Backend) (i : Inst) (data : Bytes) (enc : List Bytes)
     {bsOK : Nat → Prop} (hbe : EncodeOK be i.k i.m bsOK) (hbs : bsOK (blockSize i data.length))
-    (hlen : data.length < 2 ^ 31) (h : encode env be i data = .ok enc) :
+    (h : encode env be i data = .ok enc) :
     ∃ parP, EncView env be i data (blockSize i data.length) enc
       (splitLoop i.k (blockSize i data.length) data) parP := by
+  have hlen : data.length < 2 ^ 31 := encode_ok_length_lt h
+  have hg := encodeTooLarge_false_of_ok h
   generalize hbs' : blockSize i data.length = bs
   unfold encode at h
+  rw [if_neg (by rw [hg]; exact Bool.false_ne_true)] at h
   have hbs2 := hbs'
   unfold blockSize at hbs2
   simp only [hbs2] at h
@@ -572,7 +575,7 @@ theorem decode_roundtrip (hE : EncodeOK be i.k i.m bsOK) (hbs : bsOK (blockSize 
     (htol : tol (missingOfStripe enc frags)) (hmiss : (missingOfStripe enc frags).length ≤ i.m)
     (hn : i.k ≤ frags.length) :
     decode env be i frags (80 + blockSize i data.length) false = .ok data := by
-  obtain ⟨parP, hv⟩ := encode_view env be i data enc hE hbs hok.len31 henc
+  obtain ⟨parP, hv⟩ := encode_view env be i data enc hE hbs henc
   unfold missingOfStripe at htol hmiss
   rw [hv.enc_length] at htol hmiss
   rw [decode_unfold]
@@ -586,7 +589,7 @@ theorem forced_filter_id (hE : EncodeOK be i.k i.m bsOK) (hbs : bsOK (blockSize 
     (hok : FrontOK env i data.length) (henc : encode env be i data = .ok enc)
     (hsub : ∀ f ∈ frags, f ∈ enc) (hc : be.compat i.beVer = true) :
     frags.filter (fun f => !isInvalidFragment env be i f) = frags := by
-  obtain ⟨parP, hv⟩ := encode_view env be i data enc hE hbs hok.len31 henc
+  obtain ⟨parP, hv⟩ := encode_view env be i data enc hE hbs henc
   rw [List.filter_eq_self]
   intro f hf
   obtain ⟨j, hj, rfl⟩ := hv.mem_enc (hsub f hf)
@@ -599,7 +602,7 @@ theorem decode_roundtrip_forced (hE : EncodeOK be i.k i.m bsOK) (hbs : bsOK (blo
     (htol : tol (missingOfStripe enc frags)) (hmiss : (missingOfStripe enc frags).length ≤ i.m)
     (hn : i.k ≤ frags.length) (hc : be.compat i.beVer = true) :
     decode env be i frags (80 + blockSize i data.length) true = .ok data := by
-  obtain ⟨parP, hv⟩ := encode_view env be i data enc hE hbs hok.len31 henc
+  obtain ⟨parP, hv⟩ := encode_view env be i data enc hE hbs henc
   rw [decode_forced_filter env be i frags _ hn (by omega) (hv.sub_valid hok hsub),
     forced_filter_id env be i data enc frags hE hbs hok henc hsub hc, if_neg (by omega)]
   exact decode_roundtrip env be i data enc frags hE hbs hok henc hsub hD htol hmiss hn
@@ -613,7 +616,7 @@ theorem decode_sound' (hE : EncodeOK be i.k i.m bsOK) (hbs : bsOK (blockSize i d
     decode env be i frags (80 + blockSize i data.length) force = .ok data ∨
     ∃ e, decode env be i frags (80 + blockSize i data.length) force = .error (.rc e) ∧
       (e < 0 ∨ ∃ d p ms b, be.decode d p ms b = .error (.rc e)) := by
-  obtain ⟨parP, hv⟩ := encode_view env be i data enc hE hbs hok.len31 henc
+  obtain ⟨parP, hv⟩ := encode_view env be i data enc hE hbs henc
   rw [decode_unfold]
   by_cases h1 : frags.length < i.k
   · rw [if_pos h1]; exact Or.inr ⟨_, rfl, Or.inl (by decide)⟩
@@ -831,8 +834,8 @@ variable (env : Env) (be : Backend) (i : Inst) (data : Bytes) (enc frags : List 
 
 /-- encode returns k+m fragments (so `enc.getD idx []` is `enc[idx]` for `idx < k+m`). -/
 theorem encode_length (hE : EncodeOK be i.k i.m bsOK) (hbs : bsOK (blockSize i data.length))
-    (hlen : data.length < 2 ^ 31) (henc : encode env be i data = .ok enc) : enc.length = i.k + i.m := by
-  obtain ⟨parP, hv⟩ := encode_view env be i data enc hE hbs hlen henc
+    (henc : encode env be i data = .ok enc) : enc.length = i.k + i.m := by
+  obtain ⟨parP, hv⟩ := encode_view env be i data enc hE hbs henc
   exact hv.enc_length
 
 /-- **C03** reconstruct fidelity: any in-range destination, missing or supplied, comes back
@@ -843,7 +846,7 @@ theorem reconstruct_fidelity (hE : EncodeOK be i.k i.m bsOK) (hbs : bsOK (blockS
     (htol : tol (missingOfStripe enc frags)) (hmiss : (missingOfStripe enc frags).length ≤ i.m)
     (dest : Int) (h0 : 0 ≤ dest) (h1 : dest < ((i.k + i.m : Nat) : Int)) :
     reconstruct env be i frags (80 + blockSize i data.length) dest = .ok (enc.getD dest.toNat []) := by
-  obtain ⟨parP, hv⟩ := encode_view env be i data enc hE hbs hok.len31 henc
+  obtain ⟨parP, hv⟩ := encode_view env be i data enc hE hbs henc
   unfold missingOfStripe at htol hmiss
   rw [hv.enc_length] at htol hmiss
   have := hv.reconstruct_fidelity hok hsub hD hbs htol hmiss dest.toNat (by omega)
@@ -869,7 +872,7 @@ theorem reconstruct_sound' (hE : EncodeOK be i.k i.m bsOK) (hbs : bsOK (blockSiz
     reconstruct env be i frags (80 + blockSize i data.length) dest = .ok (enc.getD dest.toNat []) ∨
     ∃ e, reconstruct env be i frags (80 + blockSize i data.length) dest = .error (.rc e) ∧
       (e < 0 ∨ ∃ d p ms dst b, be.reconstruct d p ms dst b = .error (.rc e)) := by
-  obtain ⟨parP, hv⟩ := encode_view env be i data enc hE hbs hok.len31 henc
+  obtain ⟨parP, hv⟩ := encode_view env be i data enc hE hbs henc
   have := hv.reconstruct_sound hok hsub hS hbs dest.toNat (by omega)
   rwa [Int.toNat_of_nonneg h0] at this
 
@@ -909,7 +912,7 @@ theorem encode_fragment_facts (hE : EncodeOK be i.k i.m bsOK) (hbs : bsOK (block
     (fPayload (enc.getD idx [])).length = blockSize i data.length ∧
     (idx < i.k → fPayload (enc.getD idx []) = slice data (blockSize i data.length) idx) ∧
     (be.compat i.beVer = true → isInvalidFragment env be i (enc.getD idx []) = false) := by
-  obtain ⟨parP, hv⟩ := encode_view env be i data enc hE hbs hok.len31 henc
+  obtain ⟨parP, hv⟩ := encode_view env be i data enc hE hbs henc
   have hg := hv.good hok idx hidx
   refine ⟨hv.frag_length idx hidx, hv.header_valid hok idx hidx, hg.magic, hg.idx, hg.size, hg.orig, ?_, ?_, ?_⟩
   · rw [hg.payload]; exact hv.pl_size idx hidx
@@ -920,7 +923,7 @@ theorem encode_fragment_facts (hE : EncodeOK be i.k i.m bsOK) (hbs : bsOK (block
 theorem encode_fragments_distinct (hE : EncodeOK be i.k i.m bsOK) (hbs : bsOK (blockSize i data.length))
     (hok : FrontOK env i data.length) (henc : encode env be i data = .ok enc)
     {a b : Nat} (ha : a < i.k + i.m) (hb : b < i.k + i.m) (h : enc.getD a [] = enc.getD b []) : a = b := by
-  obtain ⟨parP, hv⟩ := encode_view env be i data enc hE hbs hok.len31 henc
+  obtain ⟨parP, hv⟩ := encode_view env be i data enc hE hbs henc
   exact hv.inj hok ha hb h
 
 end facts
@@ -953,7 +956,7 @@ example :
 example (env : Env) (i : Inst) (data : Bytes) (enc : List Bytes) (hok : FrontOK env i data.length)
     (henc : encode env nullBackend i data = .ok enc) :
     decode env nullBackend i enc (80 + blockSize i data.length) false = .ok data := by
-  have hl := encode_length env nullBackend i data enc (nullBackend_encodeOK i.k i.m) trivial hok.len31 henc
+  have hl := encode_length env nullBackend i data enc (nullBackend_encodeOK i.k i.m) trivial henc
   have hmiss : missingOfStripe enc enc = [] := by
     unfold missingOfStripe missingIdx
     rw [List.filter_eq_nil_iff]
